@@ -9,6 +9,10 @@ Families (all coordinates are small integers, node sides on a coarse lattice so 
           op histories of MOVE (both axes) / RESIZE / LAYOUT (ConstrainedFDLayout + addon, PreIteration locks and resizes)
   resize  a node R with edges routed round each of its corners and neighbours close to its sides; R is grown / shrunk in x and / or y
           through ColaTopologyAddon::handleResizes or a cola::Resize in PreIteration; random D4 symmetry
+  drag    ONE topology::TopologyConstraints instance kept alive over several solves with changing desired positions (scene op DRAG, the
+          usage of libtopology/tests/simple_bend.cpp): a node is dragged into a straight edge (or across two edges) so that the edge has to
+          bend round its corner, then dragged back (in one or several steps, possibly beyond where it came from), finally every node is
+          asked back to where it started: bends made during the session must straighten again; lattice-aligned and generic coordinates
 The generators only emit start states that pass a Python port of the checker (the extracted checker re-validates `before`)."""
 
 TR, BR, BL, TL, CEN = 0, 1, 2, 3, 4
@@ -209,6 +213,11 @@ def sym_scene(sc, swap, fx, fy):
             flip = fx if dim == 0 else fy
             ndim = (1 - dim) if swap else dim
             out['ops'].append(('MOVE', ndim, [(i, -d if flip else d, w) for i, d, w in lst]))
+        elif op[0] == 'DRAG':
+            dim = op[1]
+            flip = fx if dim == 0 else fy
+            ndim = (1 - dim) if swap else dim
+            out['ops'].append(('DRAG', ndim, [[(i, -d if flip else d, w) for i, d, w in st] for st in op[2]]))
         elif op[0] == 'RESIZE':
             out['ops'].append(('RESIZE', rz(op[1])))
         else:
@@ -229,6 +238,8 @@ def script(sc):
     for op in sc['ops']:
         if op[0] == 'MOVE':
             ls.append('MOVE %d %d ' % (op[1], len(op[2])) + ' '.join('%d %s %s' % (i, num(d), num(w)) for i, d, w in op[2]))
+        elif op[0] == 'DRAG':
+            ls.append('DRAG %d %d ' % (op[1], len(op[2])) + ' '.join('%d ' % len(st) + ' '.join('%d %s %s' % (i, num(d), num(w)) for i, d, w in st) for st in op[2]))
         elif op[0] == 'RESIZE':
             ls.append('RESIZE %d ' % len(op[1]) + ' '.join('%d %s %s %s %s' % (i, num(x), num(y), num(w), num(h)) for i, x, y, w, h in op[1]))
         else:
@@ -496,9 +507,117 @@ def gen_resize(rng, tag):
     return {'family': 'resize', 'tag': tag, 'nodes': nodes, 'edges': edges, 'ops': ops}
 
 
-def gen_scenes(rng, n_pinch, n_lattice, n_resize):
+def gen_drag(rng, tag):
+    """canonical orientation: HORIZONTAL session (nodes move in x).  One or two straight edges S -> W running upwards to the right or left; the
+    dragged node B lies beside them with its y-range inside the y-span of the edges; B is dragged in x across the edge line(s) by steps of one
+    DRAG op (one TopologyConstraints instance), then back; the last step asks every node back to its start position.
+    lattice variant: all coordinates multiples of U/2; generic variant: eighths at arbitrary positions, no two node sides on one coordinate"""
+    lattice = rng.chance(1, 2)
+    U = rng.choice([10, 20])
+    if lattice:
+        q = lambda v: int(round(v / (U / 2.0))) * (U // 2)
+    else:
+        q = lambda v: int(round(v)) + rng.range(0, 7) / 8.0
+    nedges = 1 if rng.chance(3, 5) else 2
+    up_right = rng.chance(1, 2)
+    H = U * rng.range(8, 16)                     # y-span of the edges between the end node centres
+    Wd = U * rng.range(4, 16)                    # x-span
+    nodes, edges, lines = [], [], []
+    for e in range(nedges):
+        hw, hh = q(U * rng.range(1, 2)) / 2.0 + (0 if lattice else 0.5), q(U * rng.range(1, 2)) / 2.0 + (0 if lattice else 0.25)
+        sx = q(e * U * rng.range(4, 8) + (0 if up_right else Wd)); sy = q(U * rng.range(-2, 2))
+        wx = q(sx + (Wd if up_right else -Wd) + U * rng.range(-2, 2)); wy = q(sy + H + U * rng.range(-2, 2))
+        if lattice:
+            hw, hh = max(U // 2, int(hw)), max(U // 2, int(hh))
+        S = (sx - hw, sx + hw, sy - hh, sy + hh)
+        Wn = (wx - hw, wx + hw, wy - hh, wy + hh)
+        nodes += [S, Wn]
+        edges.append([(len(nodes) - 2, CEN), (len(nodes) - 1, CEN)])
+        lines.append((corner(S, CEN), corner(Wn, CEN)))
+    # B: y-range strictly inside the common y-span (between the end nodes' boxes most of the time)
+    ylo = max(min(a[1], b[1]) for a, b in lines) + U
+    yhi = min(max(a[1], b[1]) for a, b in lines) - U
+    bh = q(U * rng.range(1, 3)); bw = q(U * rng.range(1, 4))
+    if lattice:
+        bh, bw = max(U, int(bh)), max(U, int(bw))
+    else:
+        bh, bw = bh + 0.375, bw + 0.125
+    if yhi - ylo < bh:
+        return None
+    by0 = q(ylo + rng.below(1001) / 1000.0 * (yhi - ylo - bh))
+    def x_on(l, y):
+        a, b = l
+        return a[0] + (b[0] - a[0]) * (y - a[1]) / (b[1] - a[1])
+    xs = [x_on(l, y) for l in lines for y in (by0, by0 + bh)]
+    from_right = rng.chance(1, 2)
+    gap = U * rng.range(1, 4) + (0 if lattice else rng.range(1, 7) / 8.0)
+    if from_right:
+        bx0 = q(max(xs) + gap)
+    else:
+        bx0 = q(min(xs) - gap) - bw
+    B = (bx0, bx0 + bw, by0, by0 + bh)
+    nodes.append(B)
+    bi = len(nodes) - 1
+    sc0 = {'nodes': nodes, 'edges': edges}
+    if not scene_ok(sc0, strict=True):
+        return None
+    # distractors (not touched by any path; may be pushed by B)
+    for _ in range(rng.range(0, 3)):
+        r = place_free(rng, nodes, edges, U, -4 * U, 20 * U)
+        if r is not None:
+            if not lattice:
+                r = (r[0] + 0.625, r[1] + 0.875, r[2] + 0.125, r[3] + 0.25)
+                if not (all(rects_apart(r, s_) for s_ in nodes) and scene_ok({'nodes': nodes + [r], 'edges': edges}, strict=True)):
+                    continue
+            nodes.append(r)
+    if not lattice:
+        # generic position: no two sides on one coordinate
+        for ax in (0, 2):
+            vals = [v for r in nodes for v in (r[ax], r[ax + 1])]
+            if len(set(vals)) != len(vals):
+                return None
+    # the session: targets for B's x-centre
+    cx0 = (B[0] + B[1]) / 2.0
+    far = (min(xs) + (cx0 - B[0])) if from_right else (max(xs) - (B[1] - cx0))      # centre at which B's near side has reached the farthest line
+    sgn = -1 if from_right else 1
+    span = abs(far - cx0)
+    def into(frac_extra):
+        return q(cx0 + sgn * (span + frac_extra))
+    deep = U * rng.range(1, 6)
+    pat = rng.below(6)
+    if pat == 0:
+        tg = [into(deep)]
+    elif pat == 1:
+        tg = [into(deep), into(deep + U * rng.range(1, 4))]
+    elif pat == 2:
+        tg = [into(deep + 2 * U), into(U // 2)]                     # partially back (still bent most of the time)
+    elif pat == 3:
+        tg = [into(deep), q(cx0), into(deep + U)]                 # in, out, in again
+    elif pat == 4:
+        tg = [into(deep), q(cx0 - sgn * U * rng.range(1, 4))]     # back beyond where it came from
+    else:
+        tg = [q(cx0 + sgn * span * rng.range(1, 3) / 4.0), into(deep)]   # approach without touching, then in
+    steps = []
+    heavy_ends = rng.chance(1, 3)
+    for t in tg:
+        st = [(bi, t, rng.choice([10000, 10000, 1000, 100]))]
+        if heavy_ends:
+            st += [(i, corner(nodes[i], CEN)[0], 1000) for i in range(bi)]
+        elif rng.chance(1, 4):
+            i = rng.below(bi)
+            st.append((i, corner(nodes[i], CEN)[0] + U * rng.range(-3, 3), 1))
+        steps.append(st)
+    # last step: everybody back to the start
+    steps.append([(i, corner(r, CEN)[0], 10000 if i == bi else 1) for i, r in enumerate(nodes)])
+    fam = 'drag-lattice' if lattice else 'drag'
+    if nedges == 2:
+        fam += '2'
+    return {'family': fam, 'tag': tag, 'nodes': nodes, 'edges': edges, 'ops': [('DRAG', 0, steps)]}
+
+
+def gen_scenes(rng, n_pinch, n_lattice, n_resize, n_drag=0):
     out = []
-    for fam, cnt, g in (('pinch', n_pinch, gen_pinch), ('lattice', n_lattice, gen_lattice), ('resize', n_resize, gen_resize)):
+    for fam, cnt, g in (('pinch', n_pinch, gen_pinch), ('lattice', n_lattice, gen_lattice), ('resize', n_resize, gen_resize), ('drag', n_drag, gen_drag)):
         k = tries = 0
         while k < cnt and tries < cnt * 5:
             tries += 1
@@ -536,6 +655,12 @@ def parse_scripts(text):
         elif t[0] == 'MOVE':
             k = int(t[2]); v = t[3:3 + 3 * k]
             cur['ops'].append(('MOVE', int(t[1]), [(int(v[3 * j]), float(v[3 * j + 1]), float(v[3 * j + 2])) for j in range(k)]))
+        elif t[0] == 'DRAG':
+            steps, q = [], 3
+            for _ in range(int(t[2])):
+                k = int(t[q]); v = t[q + 1:q + 1 + 3 * k]; q += 1 + 3 * k
+                steps.append([(int(v[3 * j]), float(v[3 * j + 1]), float(v[3 * j + 2])) for j in range(k)])
+            cur['ops'].append(('DRAG', int(t[1]), steps))
         elif t[0] == 'RESIZE':
             k = int(t[1]); v = t[2:2 + 5 * k]
             cur['ops'].append(('RESIZE', [(int(v[5 * j]),) + tuple(float(x) for x in v[5 * j + 1:5 * j + 5]) for j in range(k)]))
